@@ -178,7 +178,9 @@ CHECKS = {
         text="Generated histories of analyses (generated programs and benchmark files, permuted goal lists, repeated analyses, settings vectors applied like the CLI, "
              "invariant and sensitivity requests, analyses that Polar refuses) are executed in one process; after every step the signature (closed forms as functions, "
              "exactness, inferred types up to generated names, reduced Groebner basis of the invariant ideal, error outcome) must equal the signature of the same single "
-             "analysis in a fresh subprocess; the last analysis is repeated under other PYTHONHASHSEED values. The whole history shrinks as one value.",
+             "analysis in a fresh process state (a fork of the still unused case process; the last analysis also in new interpreters under other PYTHONHASHSEED values). "
+             "About a third of the cases are command-line runs over 2-3 files through one action object and one argument namespace, as polar.py:main does; what is "
+             "printed per file must be what the same command line prints for that file alone. The whole history shrinks as one value.",
         note=TRUSTED + " Histories are generated as explicit step lists by a composite strategy (preconditions are encoded in the generator) rather than by a RuleBasedStateMachine "
              "class so that a history is a JSON-able replay file run in its own forked child; PlotAction is not exercised (needs a display).",
         design="DESIGN.md section 4 C20",
